@@ -220,9 +220,13 @@ def run_case(case, ctx):
     ctx.check("predicate", [bool(x) for x in D.are_columns_nested(mixed)] == [True] * case["nc"] + [False] and D.is_nested_dataframe(mixed),
               "predicate:mixed-frame", "predicates wrong on a frame with nested and primitive columns")
     if case["ni"] >= 2:
-        partly = pd.DataFrame({"a": [df.iloc[0, 0]] + [float(i) for i in range(1, case["ni"])], "b": np.arange(case["ni"], dtype=float)})
-        ctx.check("predicate", [bool(x) for x in D.are_columns_nested(partly)] == [True, False] and D.is_nested_dataframe(partly),
-                  "predicate:partly-nested-column", "a column containing one series-valued cell is not reported as nested")
+        # a column with a single series-valued cell, in the first, a middle or the last row (the other rows hold primitives / missing values)
+        for where in sorted({0, case["ni"] // 2, case["ni"] - 1}):
+            cells = [float(i) if i % 2 else float("nan") for i in range(case["ni"])]
+            cells[where] = df.iloc[0, 0]
+            partly = pd.DataFrame({"a": cells, "b": np.arange(case["ni"], dtype=float)})
+            ctx.check("predicate", [bool(x) for x in D.are_columns_nested(partly)] == [True, False] and D.is_nested_dataframe(partly),
+                      "predicate:partly-nested-column", "a column containing one series-valued cell is not reported as nested", row_of_the_series_cell=where, rows=case["ni"])
     ctx.check("predicate", D.is_nested_dataframe(arr) is False and not D.is_nested_dataframe(pd.DataFrame(arr[:, 0, :])),
               "predicate:non-nested", "is_nested_dataframe true for an array / flat frame")
     # container coercion at estimator boundaries equals the direct conversions
